@@ -4,6 +4,7 @@ import os
 
 from .. import expr as X
 from .. import facts as F
+from .. import rules as R
 from ..core import VERIF
 
 EMITTERS = ("add_struct", "impl_struct_field_get", "impl_struct_field_get_mut", "impl_struct_field_set")
@@ -178,7 +179,56 @@ def r4(ctx):
     ctx.floor(rule, n, "C09.R4.variants")
 
 
+DIGIT_TESTS = ("is_numeric", "is_ascii_digit", "is_digit", "is_alphanumeric")
+SIGN_SPLITS = ("strip_prefix", "starts_with", "trim_start_matches", "split_at", "split_first")
+
+
+def r5(ctx):
+    rule = "C09.R5"
+    ctx.rule(rule, "digit grouping keeps the literal a literal: RustCodeGenerator::format_number_nicely inserts `_` only next to digits - "
+                   "every push of the separator is guarded by a digit test of a character, or the sign is split off before grouping "
+                   "(`-_128` is an identifier expression, the generated accessor of INTEGER (-128..127) does not compile)")
+    P = ctx.program()
+    bs = [b for b in P.find("asn1rs_model", "RustCodeGenerator::format_number_nicely") if b.def_kind in ("Fn", "AssocFn")]
+    if len(bs) != 1:
+        ctx.fail(rule, "anchor-lost:format_number_nicely", "matched %d bodies" % len(bs))
+        return
+    b = bs[0]
+    n = 0
+    bodies = [b] + P.closures_of(b)
+    sign_split = []
+    for body in bodies:
+        O = X.Origins(body, P)
+        for cs in body.calls():
+            if cs.name in SIGN_SPLITS and any(a.get("k") == "const" and a.get("s") in ("'-'", '"-"') for a in cs.args):
+                sign_split.append(cs.loc())
+        for c in F.comparisons(body, O):
+            if c.kind == "eq" and c.boundary == 45:      # == '-'
+                sign_split.append(c.loc)
+    for body in bodies:
+        O = X.Origins(body, P)
+        for cs in body.calls():
+            if cs.name not in ("push", "push_str", "insert") or not any(
+                    a.get("k") == "const" and a.get("s") in ("'_'", '"_"') for a in cs.args):
+                continue
+            n += 1
+            guards = []
+            for s_bb, ex, val in R.path_conditions(body, O, cs.bb):
+                e = X.strip(ex)
+                if e[0] == "call" and X.last_seg(e[1] or "") in DIGIT_TESTS and val:
+                    guards.append(X.last_seg(e[1]))
+            detail = {"function": body.path, "separator_pushed_at": cs.loc(), "digit_tests_on_the_path": guards, "sign_split_off_at": sign_split}
+            if guards or sign_split:
+                ctx.ok(rule, "format_number_nicely#separator", detail)
+            else:
+                ctx.fail(rule, "format_number_nicely#separator", "the separator `_` is inserted without testing that it stands between digits and "
+                                                                 "the sign is not split off: a negative number whose digit count is a multiple of "
+                                                                 "three is printed as `-_ddd`", cs.loc(), detail)
+    ctx.floor(rule, n, "C09.R5.pushes")
+
+
 def run(ctx):
     r1(ctx)
     r3(ctx)
     r4(ctx)
+    r5(ctx)
